@@ -173,6 +173,15 @@ def _scalar_error_short_circuit(case):
     return (arr(l) and err(r)) or (err(l) and arr(r))
 
 
+@known_predicate('C13-empty-marker-text-shown-as-zero')
+def _empty_marker_text(case):
+    """Inert (the generators never produce this text).  eval_func returns 0 for a formula value that is
+    None or equals pycel's blank marker '#EMPTY!' (excelformula.py `ret_val not in (None, EMPTY)`), so a
+    member cell whose own element is the TEXT "#EMPTY!" (e.g. ="#EMPTY"&"!" entered over a range) shows 0
+    while evaluate(range) shows the text.  Model: Model/CseCells.v eval_formula / shown."""
+    return case.get('call') == 'array-formula' and 'member' in case and case.get('element') == '#EMPTY!'
+
+
 def run(ctx):
     ensure_impl_on_path()
     import logging
@@ -505,9 +514,9 @@ def end_to_end(ctx, fixup, FUNCS):
                 want = fit_statement(point, h, w)
                 got = run_impl(comp.evaluate, f'Sheet!{ref}')
                 # ---- the member-cell model, value side: every cell of the target
+                cells = [[run_impl(comp.evaluate, f'Sheet!{col(c0 + j)}{r0 + i}') for j in range(w)]
+                         for i in range(h)]
                 if whole_ok:
-                    cells = [[run_impl(comp.evaluate, f'Sheet!{col(c0 + j)}{r0 + i}') for j in range(w)]
-                             for i in range(h)]
                     bad = [x for row in cells for x in row if x[0] != 'ok']
                     im_cells = bad[0] if bad else ('ok', tuple(tuple(x[1] for x in row) for row in cells))
                     cell_calls.append((dict(call='target-cells', args=args, formula=formula, target=ref,
@@ -525,16 +534,15 @@ def end_to_end(ctx, fixup, FUNCS):
                 if kind == 'op':
                     model_calls.append((args, h, w))
                     checks.append((case, got))
-                # each member cell shows its own element (two sampled members per target)
-                for _ in range(2):
-                    i, j = ctx.rng.randrange(h), ctx.rng.randrange(w)
+                # each member cell shows its own element (every member of the target)
+                for i, j in itertools.product(range(h), range(w)):
                     member = f'Sheet!{col(c0 + j)}{r0 + i}'
-                    gm = run_impl(comp.evaluate, member)
+                    gm = cells[i][j]
                     ctx.count(('e2e-member', formula, repr(a), repr(b), ref, i, j), kind='e2e:member')
                     wm = canon(want[i][j])
                     # a blank element (IF picking an empty cell) is shown as blank or as 0
                     if gm != ('ok', wm) and not (wm is None and gm == ('ok', 0)):
-                        ctx.violation(dict(case, member=member), "member cell does not show its own element",
+                        ctx.violation(dict(case, member=member, element=wm), "member cell does not show its own element",
                                       impl=gm, expected=wm)
     # the member-cell model against the compiler: same (result array, target shape) -> every cell
     if ctx.model and cell_calls:
